@@ -22,6 +22,59 @@ pub struct Sugar {
     pub placeholder_suffix: String,
     /// choose per opportunity (true = use the sugar); None = always
     pub coin: Option<u64>,
+    /// spell the sugar C10 owns (derived copulas, retrospective equivalence, image connecters,
+    /// placeholder and interval prefixes) with the harness's own copy of the documented vocabulary
+    /// (`PINNED`) instead of the strings read from the library's format table
+    pub pinned: bool,
+}
+
+/// The documented spelling of the surface sugar (README grammar for ASCII; the LaTeX and Han (漢)
+/// tables of the crate documentation), pinned here so that the meaning of `{--`, `--]`, ... is stated
+/// independently of the table the parsers look them up in.
+pub struct Pinned {
+    pub instance: &'static str,
+    pub property: &'static str,
+    pub instance_property: &'static str,
+    pub equivalence_retrospective: &'static str,
+    pub image_extension: &'static str,
+    pub image_intension: &'static str,
+    pub placeholder: &'static str,
+    pub interval: &'static str,
+}
+
+pub fn pinned(f: Fmt) -> &'static Pinned {
+    match f {
+        Fmt::Ascii => &Pinned {
+            instance: "{--",
+            property: "--]",
+            instance_property: "{-]",
+            equivalence_retrospective: r"<\>",
+            image_extension: "/",
+            image_intension: r"\",
+            placeholder: "_",
+            interval: "+",
+        },
+        Fmt::Latex => &Pinned {
+            instance: r"\circ\!\!\!\rightarrow{}",
+            property: r"\rightarrow\!\!\!\circ{}",
+            instance_property: r"\circ\!\!\!\rightarrow\!\!\!\circ{}",
+            equivalence_retrospective: r"\backslash\!\!\!\Leftrightarrow{}",
+            image_extension: "/",
+            image_intension: r"\backslash{}",
+            placeholder: r"\diamond{}",
+            interval: "+",
+        },
+        Fmt::Han => &Pinned {
+            instance: "为",
+            property: "有",
+            instance_property: "具有",
+            equivalence_retrospective: "曾同",
+            image_extension: "外像",
+            image_intension: "内像",
+            placeholder: "某",
+            interval: "间隔",
+        },
+    }
 }
 
 impl Sugar {
@@ -94,8 +147,8 @@ pub fn term_tokens(f: Fmt, t: &TD, sugar: &mut Sugar, out: &mut Vec<String>) {
     let e = f.e();
     match t.k.shape() {
         Shape::AtomNamed => out.push(format!("{}{}", prefix(f, t.k), t.name)),
-        Shape::AtomPlaceholder => out.push(format!("{}{}", prefix(f, t.k), sugar.placeholder_suffix)),
-        Shape::AtomInterval => out.push(format!("{}{}{}", prefix(f, t.k), "0".repeat(sugar.interval_pad), t.num)),
+        Shape::AtomPlaceholder => out.push(format!("{}{}", if sugar.pinned { pinned(f).placeholder } else { prefix(f, t.k) }, sugar.placeholder_suffix)),
+        Shape::AtomInterval => out.push(format!("{}{}{}", if sugar.pinned { pinned(f).interval } else { prefix(f, t.k) }, "0".repeat(sugar.interval_pad), t.num)),
         Shape::SetN if matches!(t.k, Kind::SetExt | Kind::SetInt) => {
             let (l, r) = if t.k == Kind::SetExt { e.compound.brackets_set_extension } else { e.compound.brackets_set_intension };
             out.push(l.to_string());
@@ -109,7 +162,11 @@ pub fn term_tokens(f: Fmt, t: &TD, sugar: &mut Sugar, out: &mut Vec<String>) {
         }
         Shape::Unary | Shape::VecN | Shape::SetN | Shape::Image | Shape::BinOrd if t.k.cat() == Cat::Compound => {
             out.push(e.compound.brackets.0.to_string());
-            out.push(connecter(f, t.k).to_string());
+            out.push(match (sugar.pinned, t.k) {
+                (true, Kind::ImgExt) => pinned(f).image_extension.to_string(),
+                (true, Kind::ImgInt) => pinned(f).image_intension.to_string(),
+                _ => connecter(f, t.k).to_string(),
+            });
             let mut items: Vec<Option<&TD>> = t.kids.iter().map(Some).collect();
             if t.k.shape() == Shape::Image {
                 items.insert(t.num, None);
@@ -118,7 +175,7 @@ pub fn term_tokens(f: Fmt, t: &TD, sugar: &mut Sugar, out: &mut Vec<String>) {
                 out.push(e.compound.separator.to_string());
                 match it {
                     Some(k) => term_tokens(f, k, sugar, out),
-                    None => out.push(format!("{}{}", e.atom.prefix_placeholder, sugar.placeholder_suffix)),
+                    None => out.push(format!("{}{}", if sugar.pinned { pinned(f).placeholder } else { e.atom.prefix_placeholder }, sugar.placeholder_suffix)),
                 }
             }
             out.push(e.compound.brackets.1.to_string());
@@ -132,18 +189,18 @@ pub fn term_tokens(f: Fmt, t: &TD, sugar: &mut Sugar, out: &mut Vec<String>) {
                 let ext1 = a.k == Kind::SetExt && a.kids.len() == 1;
                 let int1 = b.k == Kind::SetInt && b.kids.len() == 1;
                 if ext1 && int1 && sugar.take() {
-                    cop = s.copula_instance_property;
+                    cop = if sugar.pinned { pinned(f).instance_property } else { s.copula_instance_property };
                     a = &a.kids[0];
                     b = &b.kids[0];
                 } else if ext1 && sugar.take() {
-                    cop = s.copula_instance;
+                    cop = if sugar.pinned { pinned(f).instance } else { s.copula_instance };
                     a = &a.kids[0];
                 } else if int1 && sugar.take() {
-                    cop = s.copula_property;
+                    cop = if sugar.pinned { pinned(f).property } else { s.copula_property };
                     b = &b.kids[0];
                 }
             } else if t.k == Kind::EquivPred && sugar.retrospective && sugar.take() {
-                cop = s.copula_equivalence_retrospective;
+                cop = if sugar.pinned { pinned(f).equivalence_retrospective } else { s.copula_equivalence_retrospective };
                 std::mem::swap(&mut a, &mut b);
             }
             out.push(s.brackets.0.to_string());
